@@ -177,7 +177,8 @@ NEAR_ONE = "1048575/1048576"          # 1 - 2^-20
 def gen_repr(rng, chain=False):
     """input representation / planner options of the impl runner (harness/impl/c04_impl.py)"""
     rp = {"labels": rng.choice(["int"] * 5 + ["str", "str", "tuple", "tuple", "falsy", "falsy", "none", "none"]),
-          "dist_objects": rng.random() < .3, "actions_tuple": rng.random() < .7, "actions_shared": rng.random() < .4,
+          "dist_objects": rng.random() < .3, "actions_form": rng.choice(["tuple"] * 4 + ["list", "list", "frozenset", "set", "dict_keys", "generator"]),
+          "np_discount": rng.random() < .15, "actions_shared": rng.random() < .4,
           "dist_shared": rng.random() < .3, "fresh_planner_last": chain and rng.random() < .4,
           "init": rng.choice(["object", "object", "callable", "initial_state"]),
           "int_numbers": rng.random() < .25, "no_listener": rng.random() < .15}
@@ -280,7 +281,7 @@ def modify_mdp(rng, mc):
 
 def gen_case(rng, tier):
     r = rng.random()
-    gamma = "1" if r < .32 else (NEAR_ONE if r < .40 else None)
+    gamma = "1" if r < .32 else (NEAR_ONE if r < .40 else ("0" if r < .49 else None))   # 0: fully myopic problems
     nmax = 5 if tier == "quick" else 7
     if rng.random() < .04:
         nmax = 1                                  # single (absorbing) state
@@ -829,6 +830,18 @@ def none_action_scenarios():
              "repr": {"labels": "none", "actions_tuple": bool(seed // 2 % 2)}} for seed in range(4)]
 
 
+def myopic_scenarios():
+    """discount exactly 0 (declared as int 0, 0.0 and np.float64(0)): only the immediate reward counts, so
+    'a0' (-1 now, -10 later) is optimal at the start and V* = -1; read as "no discount declared" it would be -2"""
+    mc = {"n": 3, "nA": 2, "actions": [[0, 1], [0], [0]],
+          "trans": {"0,0": [[1, "1"]], "0,1": [[2, "1"]], "1,0": [[2, "1"]], "2,0": [[2, "1"]]},
+          "reward": {"0,0,1": "-1", "0,1,2": "-2", "1,0,2": "-10"},
+          "absorbing": [False, False, True], "init": [[0, "1"]], "gamma": "0"}
+    return [{"mdp": mc, "heuristic": ["0", "0", "0"], "kind": "scenario-discount-zero", "margin": "1/100", "seed": i,
+             "randomize": bool(i % 2), "iterations": 4000, "max_log": 600, "tags": [], "repr": rp}
+            for i, rp in enumerate([{"int_numbers": True}, {"int_numbers": False}, {"np_discount": True}])]
+
+
 def regression_cases():
     """fixed inputs on which msdm's LRTDP violated the property before the fix commits (must pass now,
     must fire if a defect returns)"""
@@ -876,7 +889,7 @@ def run(ctx):
     else:
         cases = [gen_case(ctx.rng, tier) for _ in range(ncases)] + regression_cases() \
             + [gen_chain(ctx.rng, tier) for _ in range(nchains)] \
-            + [gen_routing(ctx.rng, tier) for _ in range(nrouting)] + tie_scenarios() + shared_list_scenarios() + none_action_scenarios() \
+            + [gen_routing(ctx.rng, tier) for _ in range(nrouting)] + tie_scenarios() + shared_list_scenarios() + none_action_scenarios() + myopic_scenarios() \
             + [gen_tight(ctx.rng, tier) for _ in range(ntight)] \
             + [gen_corridor(ctx.rng, tier) for _ in range(6 if tier == "quick" else 100)] \
             + [gen_long_trial(ctx.rng, tier) for _ in range(2 if tier == "quick" else 20)]
@@ -949,7 +962,9 @@ def run(ctx):
         shared = bool(rp.get("actions_shared")) and all(a == case["mdp"]["actions"][0] for a in case["mdp"]["actions"])
         for tg in list(case.get("tags", ())) + ["labels_" + rp.get("labels", "int")] + [k for k in
                   ("dist_objects", "dist_shared", "fresh_planner_last", "int_numbers", "no_listener", "seed_none", "touch_views") if rp.get(k)] + \
-                  (["actions_one_shared_list"] if shared else (["actions_persistent_lists"] if not rp.get("actions_tuple", True) else [])) + \
+                  (["actions_one_shared_list"] if shared else ["actions_" + (lambda f: "frozenset" if f == "generator" and not case["randomize"] else f)(rp.get("actions_form") or ("tuple" if rp.get("actions_tuple", True) else "list"))
+                                                            + ("_randomized" if case["randomize"] else "")]) + \
+                  (["gamma_zero"] if F(case["mdp"]["gamma"]) == 0 else []) + (["np_discount"] if rp.get("np_discount") else []) + \
                   (["max_trial_length"] if rp.get("max_trial_length") is not None else []) + \
                   (["init_" + rp.get("init", "object")]) + (["iterations_cap"] if case["iterations"] <= 2 else []) + \
                   (["gamma_near_one"] if case["mdp"]["gamma"] == NEAR_ONE else []) + (["margin_ge_1"] if F(case["margin"]) >= 1 else []) + \
